@@ -85,6 +85,17 @@ fn RecomputeDistancePrefixes(
     }
 }
 
+/// verification hook (add-only, `--cfg brotli_verif`): the private RecomputeDistancePrefixes
+#[cfg(brotli_verif)]
+pub fn verif_recompute_distance_prefixes(
+    cmds: &mut [Command],
+    num_commands: usize,
+    orig_params: &BrotliDistanceParams,
+    new_params: &BrotliDistanceParams,
+) {
+    RecomputeDistancePrefixes(cmds, num_commands, orig_params, new_params)
+}
+
 fn ComputeDistanceCost(
     cmds: &[Command],
     num_commands: usize,
